@@ -1335,6 +1335,50 @@ class Unit:
         text = splice_fn(text, self._splice_for(fname, variant, icfg.get("owner", "")), fname, vacuity)
         return Chunk("repo", label, text, relfile, (l1, l2), sha, [fname])
 
+    def _extract_let(self, icfg: dict, variant: Optional[str], vacuity: bool = False) -> Chunk:
+        """`let_of`: W12b -- the initialiser of ONE `let` statement of fn X (found by the token sequence that starts the
+        statement, e.g. `let method_ref =`) becomes the body of a named function whose signature comes from the unit.
+        Everything around that statement is not verified by this item."""
+        relfile = icfg["file"]
+        src = R.Source(os.path.join(REPO, relfile))
+        it = src.find(icfg["select"])
+        label = icfg.get("label", f"{icfg['select']} / `{icfg['let_of']} ..`")
+        ct = src.ct
+        seq = R.tokenize_pattern(icfg["let_of"])
+        idx = R.find_seq(ct, seq, it.body_open + 1, it.body_close)
+        if len(idx) != 1:
+            raise ExtractError(f"{label}: `{icfg['let_of']}` matched {len(idx)} times")
+        if seq[0] != "let":
+            raise ExtractError(f"{label}: the anchor must start with `let`")
+        k = idx[0] + len(seq)
+        if ct[k - 1].text != "=":
+            raise ExtractError(f"{label}: the anchor must end with `=`")
+        e = k
+        depth = 0
+        while True:
+            tt = ct[e].text
+            if tt in R.OPEN:
+                depth += 1
+            elif tt in R.CLOSE:
+                depth -= 1
+            elif tt == ";" and depth == 0:
+                break
+            e += 1
+        raw = src.text[ct[k].start:ct[e - 1].end]
+        sha = hashlib.sha256(raw.encode()).hexdigest()
+        l1, l2 = src.line_of(ct[k].start), src.line_of(ct[e - 1].end - 1)
+        self.spans.append({"item": label, "file": relfile, "lines": [l1, l2], "sha256": sha})
+        fname = icfg["wrap_fn"]
+        self.report.add("W12", label, f"initialiser of `{icfg['let_of']} ..;` wrapped as `{icfg['wrap_sig']}`; the statements around it are not verified by this item")
+        text = icfg["wrap_sig"] + " { " + icfg.get("wrap_head", "") + " " + raw + " }"
+        substs = list(self.cfg.get("subst", [])) + list(icfg.get("subst", []))
+        if icfg.get("w6", self.cfg.get("w6", False)):
+            text = w6_message_text(text, self.report, fname)
+        text = w9_panic_args(text, self.report, fname)
+        text = apply_token_substs(text, substs, self.report, fname)
+        text = splice_fn(text, self._splice_for(fname, variant, icfg.get("owner", "")), fname, vacuity)
+        return Chunk("repo", label, text, relfile, (l1, l2), sha, [fname])
+
     def _splice_for(self, fname: str, variant: Optional[str], owner: str = "") -> Splice:
         names = ([f"{owner}.{fname}"] if owner else []) + [fname]
         dirs = (self.dir, os.path.join(VERIF, "contracts", "_common"))
@@ -1373,6 +1417,8 @@ class Unit:
         for icfg in self.cfg.get("item", []):
             if "closure_of" in icfg:
                 ch = self._extract_closure(icfg, variant, vacuity)
+            elif "let_of" in icfg:
+                ch = self._extract_let(icfg, variant, vacuity)
             elif "block_of" in icfg:
                 ch = self._extract_block(icfg, variant, vacuity)
             else:
